@@ -221,6 +221,7 @@ class MdibBackend:
 
     def __init__(self):
         self.mdib = ProviderMdib.from_mdib_file(self.MDIB_FILE)
+        self.handles = []   # handles of the location states created by successful set_location calls, in order
 
     def _associated(self):
         pm = self.mdib.data_model.pm_names
@@ -230,9 +231,19 @@ class MdibBackend:
 
     def step(self, kind, t) -> str:
         try:
+            if kind.startswith('reassoc:'):
+                # back to an earlier location: re-activate its state, everything else gets disassociated
+                handle = self.handles[int(kind.split(':')[1])]
+                pm = self.mdib.data_model.pm_names
+                descriptor = self.mdib.descriptions.NODETYPE.get_one(pm.LocationContextDescriptor)
+                with self.mdib.context_state_transaction() as mgr:
+                    mgr.disassociate_all(descriptor.Handle, ignored_handle=handle)
+                    mgr.get_context_state(handle).ContextAssociation = self.mdib.data_model.pm_types.ContextAssociation.ASSOCIATED
+                return 'ok'
             loc = _loc_for(self, kind, t)
             if kind.startswith('set') or not self._associated():
                 self.mdib.xtra.set_location(loc)
+                self.handles.append(self._associated()[0].Handle)
             else:
                 handle = self._associated()[0].Handle
                 with self.mdib.context_state_transaction() as mgr:
@@ -316,8 +327,15 @@ def rand_history(rng, backend_name):
         cur[1] = 'HOSP1'
     same = rng.random() < 0.4   # the application reuses one SdcLocation object and edits it in place
     steps = [(('set' if backend_name == 'mdib' else 'update') + ('-same' if same else ''), tuple(cur))]
-    for _ in range(rng.randrange(1, 6)):
+    states, cur_idx = [tuple(cur)], 0    # mdib back end: the location states created so far and the associated one
+    for _ in range(rng.randrange(1, 7 if backend_name == 'mdib' else 6)):
         k = rng.random()
+        if backend_name == 'mdib' and len(states) > 1 and rng.random() < 0.25:
+            # the device returns to an earlier place: the application re-associates the state it has for it
+            idx = rng.choice([i for i in range(len(states)) if i != cur_idx])
+            steps.append((f'reassoc:{idx}', states[idx]))
+            cur_idx, cur = idx, list(states[idx])
+            continue
         nxt = list(cur)
         if k < 0.4:       # less specific: some elements are not known any more
             for j in range(1, 7):
@@ -337,6 +355,11 @@ def rand_history(rng, backend_name):
         steps.append((kind + ('-same' if same else ''), tuple(nxt)))
         if any(nxt[1:]):
             cur = nxt
+            if kind == 'set':
+                states.append(tuple(nxt))
+                cur_idx = len(states) - 1
+            else:
+                states[cur_idx] = tuple(nxt)
     return steps
 
 
@@ -460,6 +483,81 @@ OTHER_TYPE = ('http://example.org/verif', 'Other')
 
 def enc_types(types) -> str:
     return '-' if types is None else 't' + ','.join(hx(ns) + ':' + hx(n) for ns, n in types)
+
+
+WS_SEPARATORS = [' ', '  ', '\n', '\n        ', '\t', '\r\n', ' \n\t ', '\n\n']
+
+
+def parsed_service(ws, epr, types, scopes, xaddrs, via):
+    """The Service object a consumer builds from a received Hello / ProbeMatch: the message node is serialised by the
+    library, then the xs:list elements (Types, Scopes, XAddrs) are re-formatted by hand with other XML white space (one item
+    per line, tabs, CR LF, leading / trailing blanks - all legal for xs:list), and parsed with from_node."""
+    from lxml import etree
+    from sdc11073.namespaces import default_ns_helper as nsh
+    from sdc11073.xml_types import wsd_types
+
+    def fill(p):
+        p.EndpointReference.Address = epr
+        p.Types = [etree.QName(ns, n) for ns, n in types]
+        if scopes is not None:
+            p.Scopes = ScopesType()
+            p.Scopes.text.extend(scopes)
+        p.XAddrs.extend(xaddrs)
+        p.MetadataVersion = 1
+    if via == 'hello':
+        payload = wsd_types.HelloType()
+        fill(payload)
+    else:
+        payload = wsd_types.ProbeMatchesType()
+        m = wsd_types.ProbeMatchType()
+        fill(m)
+        payload.ProbeMatch.append(m)
+    node = payload.as_etree_node(payload.NODETYPE, nsh.partial_map(nsh.WSD, nsh.WSA))
+    lead, sep, trail = ws
+    for el in node.iter():
+        if etree.QName(el).localname in ('Types', 'Scopes', 'XAddrs') and el.text:
+            el.text = lead + sep.join(el.text.split(' ')) + trail
+    node = etree.fromstring(etree.tostring(node))   # what arrives is text
+    parsed = type(payload).from_node(node)
+    if via != 'hello':
+        parsed = parsed.ProbeMatch[0]
+    return Service(parsed.Types, parsed.Scopes, parsed.XAddrs, parsed.EndpointReference.Address, '1',
+                   metadata_version=parsed.MetadataVersion)
+
+
+def rand_ws(rng):
+    return [rng.choice(['', '', '\n    ', ' ', '\t']), rng.choice(WS_SEPARATORS), rng.choice(['', '', '\n  ', ' ', '\r\n'])]
+
+
+def search_parsed(ctx, t, remote, expected, emit=None):
+    """remote = [[types, scopes, xaddrs, via, white space]]: parse each message, check the lists, search by location"""
+    case = {'op': 'search-parsed', 'self': list(t), 'remote': remote, 'expected': expected}
+    services = [parsed_service(ws, str(i), [tuple(x) for x in types], scopes, xaddrs, via) for i, (types, scopes, xaddrs, via, ws) in enumerate(remote)]
+    for (types, scopes, xaddrs, via, ws), svc in zip(remote, services):
+        got = (None if svc.scopes is None else list(svc.scopes.text), list(svc.x_addrs), [(q.namespace, q.localname) for q in svc.types or []])
+        if got != (scopes, xaddrs, [tuple(x) for x in types]):
+            ctx.fail('parsed-service:list-items-differ', f'the device sent scopes {scopes}, x_addrs {xaddrs} in a {via} (list white space {ws!r}); '
+                     f'the parsed service has scopes {got[0]}, x_addrs {got[1]}, types {got[2]}', case)
+            break
+    impl = impl_search_services(t, services)
+    plain = [([tuple(x) for x in ty], sc) for ty, sc, _, _, _ in remote]
+    oracle_search(ctx, t, plain, expected, impl)
+    if emit:
+        emit(_search_line(t, plain), impl, case)
+
+
+def impl_search_services(t, services) -> str:
+    wsd = wsdimpl.WSDiscovery('127.0.0.1')
+    wsd._networking_thread = mock.MagicMock()
+    wsd._server_started = True
+    for svc in services:
+        wsd._remote_services[svc.epr] = svc
+    try:
+        with mock.patch.object(wsdimpl.time, 'sleep', lambda *_: None):
+            res = wsd.search_sdc_device_services_in_location(mk_loc(t), timeout=0)
+        return 'ok ' + ' '.join(s.epr for s in res)
+    except Exception as ex:  # noqa: BLE001
+        return _exc(ex)
 
 
 def impl_search(t, remote) -> str:
@@ -809,6 +907,8 @@ def run_case_oracle(ctx, case, rng):
         oracle_filter_expected(ctx, tuple(case['self']), case['services'], case['expected'])
     elif case['op'] == 'filter':
         oracle_filter(ctx, tuple(case['self']), case['services'])
+    elif case['op'] == 'search-parsed':
+        search_parsed(ctx, tuple(case['self']), case['remote'], case['expected'])
     elif case['op'] == 'rescope':
         stateful_scope_string(ctx, tuple(case['first']), tuple(case['then']))
     elif case['op'] == 'reparse':
@@ -1021,6 +1121,31 @@ def run(ctx):
         oracle_search(ctx, t, remote, expected, impl)
         ctx.count('search:' + ('enclosing' if encloses else 'elsewhere') + f':found-{min(len(expected), 3)}')
         add(_search_line(t, remote), impl, {'op': 'search', 'self': list(t), 'remote': remote, 'expected': expected}, True)
+
+    # 2f. services as a consumer really gets them: parsed from Hello / ProbeMatch nodes whose xs:list elements are formatted
+    #     with arbitrary XML white space; searched by location
+    for _ in range(ctx.n(300, 4000)):
+        dev = rand_loc(rng, root=DEFAULT_ROOT)
+        if not any(dev[1:]):
+            continue
+        t = list(enclosing_of(dev, rng.randrange(64), DEFAULT_ROOT))
+        enc = True
+        if rng.random() < 0.3:
+            j = 1 + rng.randrange(6)
+            t[j] = (dev[j] or '') + 'x'
+            enc = False
+        t = tuple(t)
+        elsewhere = list(dev)
+        spec = [j for j in range(1, 7) if t[j] is not None]
+        remote = [(list(DEVICE_TYPES), published_scope_list(dev) + ['sdc.cdc.type:/a/b/c'], ['http://10.0.0.1:6464/x', 'https://h/y'])]
+        expected = [0] if enc else []
+        if spec:
+            j = rng.choice(spec)
+            elsewhere[j] = t[j] + 'y'
+            remote.append((list(DEVICE_TYPES), published_scope_list(elsewhere), ['http://10.0.0.2/z']))
+        full = [[ty, sc, xa, rng.choice(['hello', 'probematch']), rand_ws(rng)] for ty, sc, xa in remote]
+        search_parsed(ctx, t, full, expected, lambda line, impl, case: add(line, impl, case, True))
+        ctx.count('search-parsed:' + ('enclosing' if enc else 'elsewhere'))
 
     # 2e. the functions are pure: call sequences on the SAME scope string with the caller changing returned objects in between
     def emit2(line, impl, case):
